@@ -104,8 +104,8 @@ type site struct{ target, syscall string }
 
 var sites = []site{{"src", "newfstatat"}, {"src", "openat"}, {"src", "fstat"}, {"src", "read"}, {"src", "close"}, {"dst", "openat"}, {"dst", "write"}, {"dst", "write"}, {"dst", "close"}}
 
-var allSrcKinds = []string{"file", "missing", "dir", "mode000", "symlink_ok", "dangling", "loop", "spacename", "nonascii_name", "longname", "same_as_dst", "emptyarg", "fifo", "stdin", "relative", "dotslash", "barename", "dotdot_via_symlink", "other_readable"}
-var allDstKinds = []string{"absent", "empty", "shorter", "equal", "longer", "old_image", "ro_file", "ro_dir", "parent_missing", "parent_is_file", "is_dir", "symlink_file", "dangling_symlink", "dev_full", "relative", "dotdot", "longname", "emptyarg", "dev_null", "trailing_slash", "dir_no_search", "hardlink_to_src", "symlink_to_src", "barename", "rw_file_in_ro_dir", "dotdot_via_symlink", "other_writable"}
+var allSrcKinds = []string{"file", "missing", "dir", "mode000", "symlink_ok", "dangling", "loop", "spacename", "nonascii_name", "longname", "same_as_dst", "emptyarg", "fifo", "stdin", "relative", "dotslash", "barename", "dotdot_via_symlink", "other_readable", "parent_is_file", "trailing_slash"}
+var allDstKinds = []string{"absent", "empty", "shorter", "equal", "longer", "old_image", "ro_file", "ro_dir", "parent_missing", "parent_is_file", "is_dir", "symlink_file", "dangling_symlink", "dev_full", "relative", "dotdot", "longname", "emptyarg", "dev_null", "trailing_slash", "dir_no_search", "hardlink_to_src", "symlink_to_src", "barename", "rw_file_in_ro_dir", "dotdot_via_symlink", "other_writable", "symlink_loop"}
 var allShapes = []string{"src-dst", "src-dst-lst", "none", "src", "four", "d-src-dst", "d-only", "v", "help", "badflag", "src-dst-dashlst", "src-dst-v", "d-src"}
 var allLstKinds = []string{"ok", "parent_missing", "same_as_dst", "existing", "same_as_src", "is_dir", "dev_full", "symlink_to_dst", "symlink_to_src", "ro_existing"}
 
@@ -197,6 +197,15 @@ func kindGrid(progs []*c19Prog, baseSeed uint64) []*Scenario {
 			mk(coff, func(s *Scenario) { s.DstFd, s.DstKind = fd, dk })
 		}
 	}
+	for _, e := range []string{"sjis", "utf8"} {
+		for _, b := range []int{512, 4096, 8192, 32768, 65536} {
+			e, b := e, b
+			mk(flat, func(s *Scenario) { s.Enc, s.DecoSeed, s.Straddle, s.Light = e, s.Seed|1, b, true })
+			if e == "utf8" {
+				mk(flat, func(s *Scenario) { s.Enc, s.DecoSeed, s.Straddle, s.Light = e, s.Seed&^1|2, b, true })
+			}
+		}
+	}
 	mk(flat, func(s *Scenario) { s.Stdin = "closed" })
 	mk(flat, func(s *Scenario) { s.Cwd = "readonly"; s.Uid = nobody })
 	mk(flat, func(s *Scenario) { s.Cwd = "root" })
@@ -245,8 +254,11 @@ func (c *c19Ctx) genScenario(seed uint64, progs []*c19Prog) *Scenario {
 	if s.RawSrc == "" && s.Enc != "ascii" && r.Chance(1, 8) {
 		s.AsciiHead = pick(r, []int{300, 1024, 4096, 4200, 8192, 20000, 70000})
 	}
+	if s.RawSrc == "" && s.Enc != "ascii" && s.AsciiHead == 0 && r.Chance(1, 10) {
+		s.Straddle = pick(r, []int{128, 512, 1024, 2048, 4096, 8192, 16384, 32768, 65536}) * pick(r, []int{1, 1, 1, 2, 3})
+	}
 	if s.Shape == "d-src-dst" {
-		s.Bulk, s.AsciiHead, s.Light = 0, 0, true
+		s.Bulk, s.AsciiHead, s.Light, s.Straddle = 0, 0, true, 0
 	}
 	s.BOM = r.Chance(1, 30) // editors on Windows like to add one; gosk reports a parse error for it today
 	s.CRLF = r.Chance(1, 10) && s.RawSrc == ""
@@ -261,8 +273,8 @@ func (c *c19Ctx) genScenario(seed uint64, progs []*c19Prog) *Scenario {
 	if s.Shape == "src-dst-lst" || s.Shape == "four" {
 		s.LstKind = pick(r, []string{"ok", "ok", "ok", "parent_missing", "same_as_dst", "existing", "same_as_src", "is_dir", "dev_full", "symlink_to_dst", "symlink_to_src", "ro_existing"})
 	}
-	srcKinds := []string{"file", "missing", "dir", "mode000", "symlink_ok", "dangling", "loop", "spacename", "nonascii_name", "longname", "same_as_dst", "emptyarg", "fifo", "stdin", "relative", "dotslash", "barename", "dotdot_via_symlink", "other_readable"}
-	s.SrcKind = srcKinds[r.weighted([]int{70, 3, 2, 2, 2, 1, 1, 2, 2, 1, 2, 1, 3, 3, 2, 2, 5, 2, 2})]
+	srcKinds := []string{"file", "missing", "dir", "mode000", "symlink_ok", "dangling", "loop", "spacename", "nonascii_name", "longname", "same_as_dst", "emptyarg", "fifo", "stdin", "relative", "dotslash", "barename", "dotdot_via_symlink", "other_readable", "parent_is_file", "trailing_slash"}
+	s.SrcKind = srcKinds[r.weighted([]int{70, 3, 2, 2, 2, 1, 1, 2, 2, 1, 2, 1, 3, 3, 2, 2, 5, 2, 2, 1, 1})]
 	if (s.Shape == "d-src-dst" || s.Shape == "d-src") && s.SrcKind == "file" && r.Chance(1, 3) {
 		s.SrcKind = "barename" // switches next to bare names: option parsing may swallow an unusual first character
 	}
@@ -270,8 +282,8 @@ func (c *c19Ctx) genScenario(seed uint64, progs []*c19Prog) *Scenario {
 		s.Break = 1 + r.Intn(4)
 		s.BreakLine = r.Intn(len(s.Header) + len(s.Body))
 	}
-	dstKinds := []string{"absent", "empty", "shorter", "equal", "longer", "old_image", "ro_file", "ro_dir", "parent_missing", "parent_is_file", "is_dir", "symlink_file", "dangling_symlink", "dev_full", "relative", "dotdot", "longname", "emptyarg", "dev_null", "trailing_slash", "dir_no_search", "hardlink_to_src", "symlink_to_src", "barename", "rw_file_in_ro_dir", "dotdot_via_symlink", "other_writable"}
-	s.DstKind = dstKinds[r.weighted([]int{35, 4, 8, 5, 10, 6, 3, 3, 3, 2, 3, 4, 3, 3, 4, 3, 1, 1, 2, 2, 2, 2, 2, 4, 3, 3, 2})]
+	dstKinds := []string{"absent", "empty", "shorter", "equal", "longer", "old_image", "ro_file", "ro_dir", "parent_missing", "parent_is_file", "is_dir", "symlink_file", "dangling_symlink", "dev_full", "relative", "dotdot", "longname", "emptyarg", "dev_null", "trailing_slash", "dir_no_search", "hardlink_to_src", "symlink_to_src", "barename", "rw_file_in_ro_dir", "dotdot_via_symlink", "other_writable", "symlink_loop"}
+	s.DstKind = dstKinds[r.weighted([]int{35, 4, 8, 5, 10, 6, 3, 3, 3, 2, 3, 4, 3, 3, 4, 3, 1, 1, 2, 2, 2, 2, 2, 4, 3, 3, 2, 2})]
 	if (s.DstKind == "hardlink_to_src" || s.DstKind == "symlink_to_src") && s.SrcKind != "file" {
 		s.DstKind = "absent"
 	}
